@@ -502,7 +502,7 @@ func (h *History) run() {
 	for step := 0; step < n; step++ {
 		if cfg.Large && burst == 0 && Rare(t, "burst", 7) {
 			// hundreds of directives on one day (a month-end batch import)
-			burst = rapid.IntRange(200, 700).Draw(t, "burstLen")
+			burst = rapid.SampledFrom([]int{200, 400, 700, 1200}).Draw(t, "burstLen")
 		}
 		if burst > 0 {
 			burst--
@@ -793,7 +793,7 @@ func MaybeLarge(t *rapid.T, cfg *HistCfg, oneIn int) bool {
 		return false
 	}
 	cfg.Large = true
-	cfg.MaxActions = rapid.SampledFrom([]int{400, 800, 1600}).Draw(t, "largeActions")
+	cfg.MaxActions = rapid.SampledFrom([]int{400, 800, 1600, 2400}).Draw(t, "largeActions")
 	return true
 }
 
